@@ -45,6 +45,7 @@ import (
 type c20sKid struct {
 	Ref  int     // >= 0: the statement variable itself is the item
 	Item c20Item // otherwise: a fresh statement value
+	Wrap bool    // (c20_ctx.go) added through Group.Add inside a callback: the group holds a new statement holding the value
 }
 
 type c20sItem struct {
@@ -70,6 +71,7 @@ var c20sGroups = map[string]struct {
 	"Parens": {"(", ")", "", false}, "Call": {"(", ")", ",", false}, "Index": {"[", "]", ":", false},
 	"Values": {"{", "}", ",", false}, "Params": {"(", ")", ",", false},
 	"Block": {"{", "}", "", true}, "Case": {"case ", ":", ",", false},
+	"List": {"", "", ",", false}, // (c20_ctx.go) no delimiters: null when all its items are
 }
 
 // ---- the oracle's list model ----
@@ -132,30 +134,39 @@ func (a *c20sAbs) text() (string, bool) {
 			}
 			continue
 		}
-		var kids []string
-		for _, k := range it.Kids {
-			if k.Ref >= 0 {
-				if t, null := (*a.vars)[k.Ref].text(); !null {
-					kids = append(kids, t)
-				}
-			} else if !k.Item.Null {
-				kids = append(kids, k.Item.Text)
-			}
+		var prev *c20sItem // the previous item of the statement's own slice (a clone's slice starts with its original)
+		if i > 0 {
+			prev = &a.own[i-1]
 		}
-		g := c20sGroups[it.Group]
-		open, close := g.Open, g.Close
-		if it.Group == "Block" {
-			var prev *c20sItem // the previous item of the statement's own slice (a clone's slice starts with its original)
-			if i > 0 {
-				prev = &a.own[i-1]
-			}
-			if c20sIsCaseHead(prev) {
-				open, close = "", ""
-			}
+		if t, null := a.groupText(it, prev); !null {
+			parts = append(parts, t)
 		}
-		parts = append(parts, c20sLay(open, close, g.Sep, g.Multi, kids))
 	}
 	return strings.Join(parts, " "), len(parts) == 0
+}
+
+// groupText: a group item of a (prev: the item in front of it in the same statement; nil when
+// the group is rendered on its own).
+func (a *c20sAbs) groupText(it, prev *c20sItem) (string, bool) {
+	var kids []string
+	for _, k := range it.Kids {
+		if k.Ref >= 0 {
+			if t, null := (*a.vars)[k.Ref].text(); !null {
+				kids = append(kids, t)
+			}
+		} else if !k.Item.Null {
+			kids = append(kids, k.Item.Text)
+		}
+	}
+	g := c20sGroups[it.Group]
+	open, close := g.Open, g.Close
+	if open == "" && close == "" && len(kids) == 0 {
+		return "", true // a group without delimiters whose items are all null is null
+	}
+	if it.Group == "Block" && c20sIsCaseHead(prev) {
+		open, close = "", ""
+	}
+	return c20sLay(open, close, g.Sep, g.Multi, kids), false
 }
 
 // deps: the variables whose contents a shows (itself, its originals, the variables inside its groups)
